@@ -80,6 +80,11 @@ def stored (bits : Nat) (n : Int) : Prop :=
 
 instance (bits : Nat) (n : Int) : Decidable (stored bits n) := by unfold stored; infer_instance
 
+/-- the integer stored in the bytes of one sample: Σ b_k·256^k, unsigned for 8 bit,
+    sign-extended (minus 2^bits when the top bit is set) otherwise -/
+def storedValue (bits : Nat) (bs : Bytes) : Int :=
+  if bits = 8 then leValue bs else toSigned bits (leValue bs)
+
 section norm
 variable {K : Type} [IntCast K] [Div K]
 
